@@ -2,7 +2,7 @@
    Tp/*.v and followed by Print Assumptions.
    The model is the transcription of the tree WITH repo_patches/C08-remove-segment-boundaries.diff
    (tp_fixed = true); tp_fixed = false is the pinned tree and is used only by C08_remove_refuted. *)
-From Icv Require Import Base.Tac Tp.TpModel Tp.TpProofs Tp.TpObs Tp.TpOracleProofs Tp.TpCal Tp.TpCivil Tp.TpCalObs Tp.TpCalProofs Tp.TpDst Tp.TpTab Tp.TpNth Tp.TpNorm.
+From Icv Require Import Base.Tac Tp.TpModel Tp.TpProofs Tp.TpObs Tp.TpOracleProofs Tp.TpCal Tp.TpCivil Tp.TpCalObs Tp.TpCalProofs Tp.TpDst Tp.TpTab Tp.TpNth Tp.TpNorm Tp.TpParse Tp.TpParseProofs.
 Local Open Scope Z_scope.
 
 (* ---------------- M1: interval algebra, all segment lists, all instants ---------------- *)
@@ -455,6 +455,28 @@ Theorem C08_stride_fixed :
 Proof. exact tp_stride_fixed. Qed.
 Print Assumptions C08_stride_fixed.
 
+(* ---------------- M2: the strings ----------------
+   tp_parse_daydef / tp_parse_timeranges (Tp/TpParse.v) transcribe ParseTimeRange, ParseTimeSpec and ProcessTimeRanges on
+   byte strings (Split without token compression, Trim, Find("- "), boost::lexical_cast<long> incl. sign, range of long
+   and narrowing to int).  vmodel and the oracle get their parsed forms from these functions applied to the very strings
+   the code gets.  tp_print_* is the generator's printer in Gallina; the parser reads back what it writes: *)
+Theorem C08_parse_print_spec : forall sp, tp_spec_wf sp -> tp_parse_spec (tp_print_spec sp) = Some sp.
+Proof. exact tp_parse_print_spec. Qed.
+Print Assumptions C08_parse_print_spec.
+
+(* day definitions: single specification, "first - last" in full or with the second part shortened to its number
+   ("day 1 - 15", "monday 1 - 3": short = true), optional " / stride" *)
+Theorem C08_parse_print_daydef : forall short dd,
+  tp_daydef_wf short dd -> tp_parse_daydef (tp_print_daydef short dd) = Some dd.
+Proof. exact tp_parse_print_daydef. Qed.
+Print Assumptions C08_parse_print_daydef.
+
+(* time ranges "HH:MM[:SS]-HH:MM[:SS],...", every time below 100:00:00 *)
+Theorem C08_parse_print_timeranges : forall l, l <> [] -> Forall tp_timerange_wf l ->
+  tp_parse_timeranges (tp_print_timeranges l) = Some (map snd l).
+Proof. exact tp_parse_print_timeranges. Qed.
+Print Assumptions C08_parse_print_timeranges.
+
 (* calendar arithmetic used by the model, for ALL day numbers / all valid dates (all of Z; the only
    computation is a sweep over one 400-year era, a finite domain, inside the proofs in Tp/TpCivil.v):
    days -> civil date -> days is the identity and the date is well-formed ... *)
@@ -513,3 +535,20 @@ Example C08_nonvacuous_dst :
   tp_inside_segs (tp_script_func (tp_tab_off tp_berlin_base tp_berlin_tab) mk true true (rg 1800 14400) b (b + 172800))
                  (mk (tp_days_from_civil 2034 3 26 * 86400 + 12600)) = true.
 Proof. vm_compute. repeat split; reflexivity. Qed.
+
+(* the printer writes the generator's strings, and malformed strings are rejected where the code throws *)
+From Coq Require Import Strings.String.
+Example C08_parser_examples :
+  tp_print_daydef true {| tp_dr_first := TpMonthDay None 1; tp_dr_last := Some (TpMonthDay None 15); tp_dr_stride := 2 |}
+    = tp_bytes_of "day 1 - 15 / 2"%string /\
+  tp_parse_daydef (tp_bytes_of "monday 0"%string) = None /\
+  tp_parse_daydef (tp_bytes_of "monday / 2"%string) = None /\
+  tp_parse_daydef (tp_bytes_of "Monday"%string) = None /\
+  tp_parse_daydef (tp_bytes_of "monday  2"%string) = None /\
+  tp_parse_daydef (tp_bytes_of "2034-03-32"%string) = None /\
+  tp_parse_daydef (tp_bytes_of "monday 2 march extra"%string) = Some {| tp_dr_first := TpWeekday 1 (Some 2) (Some 2); tp_dr_last := None; tp_dr_stride := 1 |} /\
+  tp_parse_daydef (tp_bytes_of "day 4294967297"%string) = Some {| tp_dr_first := TpMonthDay None 1; tp_dr_last := None; tp_dr_stride := 1 |} /\
+  tp_parse_timeranges (tp_bytes_of "09:00 - 17:00"%string) = None /\
+  tp_parse_timeranges (tp_bytes_of "22:00-06:00,9:0:30-17:0"%string) = Some [(79200, 21600); (32430, 61200)].
+Proof. vm_compute. repeat split; reflexivity. Qed.
+
